@@ -180,26 +180,55 @@ class MatrixRows(Adapter):
         if fitting and len(ids) < self.min_fit:     # a deterministic function of ids: pad with the rest of the pool
             ids = list(ids) + [k for k in range(1, len(self.pool) + 1) if k not in ids][: self.min_fit - len(ids)]
         M = np.vstack([self.pool[i - 1] for i in ids])
-        if self.fmt == "csr":
+        if fitting and not M.any():          # an all-zero training matrix is a documented non-fit: add a non-empty row
+            ids = list(ids) + [2]
+            M = np.vstack([self.pool[i - 1] for i in ids])
+        fmt = self.cfg.get("_fmt", self.fmt)
+        if fmt == "csr":
             return sp.csr_matrix(M), {}
+        if fmt == "csc_messy":
+            # a valid but inconvenient encoding: CSC, unsorted indices inside columns, explicit zeros stored
+            C = sp.csc_matrix(M)
+            C.data = C.data.copy()
+            for j in range(C.shape[1]):
+                a, b = C.indptr[j], C.indptr[j + 1]
+                C.indices[a:b] = C.indices[a:b][::-1].copy()
+                C.data[a:b] = C.data[a:b][::-1].copy()
+            C.has_sorted_indices = False
+            coo = C.tocoo()
+            zr = [(i, j) for i in range(M.shape[0]) for j in range(M.shape[1]) if M[i, j] == 0][:3]
+            rows = np.concatenate([coo.row, [z[0] for z in zr]]).astype(np.int32)
+            cols = np.concatenate([coo.col, [z[1] for z in zr]]).astype(np.int32)
+            vals = np.concatenate([coo.data, np.zeros(len(zr))])
+            order = np.argsort(cols, kind="stable")[::-1]
+            order = order[np.argsort(cols[order], kind="stable")]
+            C2 = sp.csc_matrix((vals[order], rows[order], np.concatenate([[0], np.cumsum(np.bincount(cols, minlength=M.shape[1]))])),
+                               shape=M.shape)
+            C2.has_sorted_indices = False
+            return C2, {}
         return M, {}
 
 
 class InfoWeight(MatrixRows):
     name = "InformationWeightTransformer"
-    configs = [dict(), dict(approx_prior=False), dict(weight_power=1.0, prior_strength=0.5)]
+    min_fit = 3
+    configs = [dict(), dict(approx_prior=False), dict(weight_power=1.0, prior_strength=0.5), dict(_fmt="csc_messy"),
+               dict(_fmt="dense")]
 
     def make(self):
-        return _cls("vectorizers.transformers.info_weight", "InformationWeightTransformer")(**self.cfg)
+        return _cls("vectorizers.transformers.info_weight", "InformationWeightTransformer")(
+            **{k: v for k, v in self.cfg.items() if not k.startswith("_")})
 
 
 class RowDenoise(MatrixRows):
     name = "RowDenoisingTransformer"
+    min_fit = 3
     rtol, atol = 1e-6, 1e-9
-    configs = [dict(), dict(normalize=True), dict(em_background_prior=5.0, em_prior_strength=0.3)]
+    configs = [dict(), dict(normalize=True), dict(em_background_prior=5.0, em_prior_strength=0.3), dict(_fmt="csc_messy")]
 
     def make(self):
-        return _cls("vectorizers.transformers.row_desnoise", "RowDenoisingTransformer")(**self.cfg)
+        return _cls("vectorizers.transformers.row_desnoise", "RowDenoisingTransformer")(
+            **{k: v for k, v in self.cfg.items() if not k.startswith("_")})
 
 
 class CountCompress(MatrixRows):
@@ -262,11 +291,11 @@ class Whole(Adapter):
 class TokenCooc(Whole):
     name = "TokenCooccurrenceVectorizer"
     rtol, atol = 1e-6, 1e-8
-    knobs = [dict(n_threads=1), dict(n_threads=3), dict(coo_initial_memory="1k")]
+    knobs = [dict(n_threads=1), dict(n_threads=3), dict(coo_initial_bytes=1024)]
     configs = [dict(window_radii=2, token_dictionary={"a": 0, "b": 1, "c": 2}),
                dict(window_radii=2, n_iter=1, token_dictionary={"a": 0, "b": 1, "c": 2}),
                dict(window_radii=[1, 2], window_orientations=["before", "after"], kernel_functions=["harmonic", "harmonic"],
-                    token_dictionary={"a": 0, "b": 1, "c": 2}),
+                    window_functions=["fixed", "fixed"], token_dictionary={"a": 0, "b": 1, "c": 2}),
                dict(window_radii=2, token_dictionary={"a": 0, "b": 1, "c": 2}, mask_string="[M]", nullify_mask=True),
                dict(window_radii=2, n_iter=2, epsilon=0.05, n_threads=2, token_dictionary={"a": 0, "b": 1, "c": 2}),
                dict(window_radii=2, window_functions="variable", token_dictionary={"a": 0, "b": 1, "c": 2})]
@@ -290,6 +319,7 @@ class TimedCooc(TokenCooc):
     def make(self):
         cfg = dict(self.cfg)
         cfg["token_dictionary"] = dict(cfg["token_dictionary"])
+        self.param_objects = {"token_dictionary": cfg["token_dictionary"]}
         return _cls("vectorizers.timed_token_cooccurrence_vectorizer", "TimedTokenCooccurrenceVectorizer")(**cfg)
 
     def make_pool(self):
@@ -304,6 +334,7 @@ class MultiCooc(TokenCooc):
     def make(self):
         cfg = dict(self.cfg)
         cfg["token_dictionary"] = dict(cfg["token_dictionary"])
+        self.param_objects = {"token_dictionary": cfg["token_dictionary"]}
         return _cls("vectorizers.multi_token_cooccurence_vectorizer", "MultiSetCooccurrenceVectorizer")(**cfg)
 
     def make_pool(self):
